@@ -101,7 +101,24 @@ CATALOGUE = [
 PAIRS = CATALOGUE[:6] + CATALOGUE[11:13] + CATALOGUE[18:22] + CATALOGUE[33:35] + CATALOGUE[40:44] + CATALOGUE[48:50] + CATALOGUE[56:58]
 
 
+def _uid_storms():
+    # many uid=True adds of one base name (the probing sequence of uid() changes after 10 collisions)
+    ops = [["add", "a", "input", None, None, False, False], ["add", "b", "input", None, None, False, False]]
+    ops += [["add", "w", ["not", "buf", "and", "or"][i % 4], ["a"] if i % 4 < 2 else ["a", "b"], None, bool(i % 3 == 0), True] for i in range(18)]
+    yield {"start": 0, "ops": ops}
+    # user-made look-alike names w, w_0 .. w_10, w_70, w_490 exist already
+    ops = [["add", "a", "input", None, None, False, False], ["add", "b", "input", None, None, False, False],
+           ["add", "w", "not", "a", None, False, False]]
+    for sfx in list(range(11)) + [70, 490]:
+        ops.append(["add", f"w_{sfx}", "not" if sfx % 2 else "buf", "b", None, sfx == 70, False])
+    ops += [["add", "w", "and", ["a", "b"], None, True, True], ["add", "w", "input", None, None, False, True],
+            ["add", "w", "not", "a", None, False, True], ["add", "w_7", "or", ["a", "w_70"], None, False, True]]
+    yield {"start": 0, "ops": ops}
+    yield {"start": 1, "ops": [["add", "g", "xor", ["a", "b"], "o", False, True] for _ in range(16)]}
+
+
 def core(ctx):
+    yield from _uid_storms()
     for s in range(3):
         for op in CATALOGUE:
             yield {"start": s, "ops": [op]}
